@@ -37,7 +37,8 @@ def peers_prop(line, impl, model):
     if len(toks) != len(ops):
         return None
     created = set()      # peers handed out by Catch so far (ids known from ok:<id>)
-    closed = set()       # peers closed by the script
+    closed = set()       # peers somebody has begun to close (x<k>, xb<k>)
+    closing = set()      # of those: the Close call is parked inside its teardown (xb<k> without xe<k> yet)
     end_started = 0
     end_returned = False
     gated = False        # a Catch is parked (the one rendezvous attempt in flight)
@@ -86,10 +87,18 @@ def peers_prop(line, impl, model):
                 if blocked_col:
                     return "end-blocked-by-collect|End did not return within the watchdog although no rendezvous attempt was in flight: Collect is blocked handing a peer over while holding the lock (%s)" % where
                 return "end-blocked|End did not return within the watchdog although no rendezvous attempt was in flight (%s)" % where
-        if op.startswith("x") and t == "x":
+        if op.startswith("xb") and t == "xb":
+            closed.add(int(op[2:]))
+            closing.add(int(op[2:]))
+        elif op.startswith("xe") and t == "xe":
+            closing.discard(int(op[2:]))
+        elif op.startswith("x") and t == "x":
             closed.add(int(op[1:]))
         if op in ("p", "pw") and t.startswith("some:"):
             pid = int(t[5:])
+            if op == "p" and pid in closing:
+                return ("pop-returned-closing-peer|Pop returned peer %d although a Close call of that peer had begun before Pop was called and was "
+                        "still tearing the peer down (Closed() must answer true from the moment Close begins) (%s)" % (pid, where))
             if op == "p" and pid in closed:
                 return "pop-closed|Pop returned peer %d which had closed before Pop was called (%s)" % (pid, where)
             if op == "p" and end_returned:
@@ -99,6 +108,10 @@ def peers_prop(line, impl, model):
         if t.startswith("n="):
             if int(t[2:]) > maxp:
                 return "over-capacity|Count() = %s exceeds the maximum %d (%s)" % (t[2:], maxp, where)
+            if not end_started and not m_seen and int(t[2:]) < len(created - closed):
+                return ("live-peer-dropped-from-pool|Count() = %s although Collect has returned %d peers that nobody has closed (%s): the purge "
+                        "dropped a live peer, which is then neither counted against the maximum nor closed by End (%s)"
+                        % (t[2:], len(created - closed), ",".join(str(x) for x in sorted(created - closed)), where))
         if not end_started and not m_seen and len(created - closed) > maxp:
             return "over-capacity|%d live peers held with maximum %d (%s)" % (len(created - closed), maxp, where)
     if info.get("dead"):
@@ -291,10 +304,28 @@ DIRECTED = [
     (1, "x0,n,p,e,pw"),
     (2, "-"),
     (0, "c+,n,e"),                                    # Max 0 (outside the quantifier, but the code accepts it): never collects
+    # a Close call of a spare is inside its teardown (xb<k> ... xe<k>) when the data path pops / Count runs / End is called
+    (2, "c+,c+,xb0,p,xe0,n,e"),
+    (3, "c+,c+,c+,xb0,xb1,p,n,xe1,xe0,n,p,e"),
+    (2, "c+,c+,p,xb1,n,c+,p,xe1,n,e"),
+    (2, "c+,c+,xb0,e,xe0,p,n"),                       # End does not wait for a teardown somebody else began
+    (2, "c+,xb0,x0,xb0,p,xe0,xe0,x0,xb0,n"),          # sync.Once: one teardown per peer
+    (1, "c+,xb0,c+,p,xe0,pw,e"),
+    # a peer looks stale (quiet for longer than SnowflakeTimeout, the checker has not looked yet) while Count/Collect/End
+    # run, then hears from its proxy again: it must stay in the pool, count against the maximum, be closed by End
+    (1, "c+,p,s0,n,c+,r0,n,c+,e"),
+    (2, "c+,p,c+,s0,s1,n,c+,r0,p,n,r1,e"),
+    (1, "c+,s0,p,c+,n,e"),
+    (2, "c+,c+,s0,p,n,x0,n,s1,c+,n,p,e"),
+    (1, "c+,s0,e"),
+    (3, "c+,c+,c+,s1,xb0,n,p,xe0,r1,n,c+,c+,n,e"),
 ]
 
 SYNC_OPS = ["c+", "c-", "p", "e", "n", "x0", "x1"]
-ALL_OPS = ["c+", "c+", "c+", "c-", "cb", "g+", "g+", "g-", "cw", "p", "p", "pw", "e", "ew", "n", "x0", "x1", "x2", "x3", "x4"]
+ALL_OPS = ["c+", "c+", "c+", "c-", "cb", "g+", "g+", "g-", "cw", "p", "p", "pw", "e", "ew", "n", "x0", "x1", "x2", "x3", "x4",
+           "xb0", "xb1", "xb2", "xe0", "xe1", "xe2", "s0", "s1", "r0", "n"]
+# the life cycle of a peer: every sequence of up to 3 of these after one or two successful Collects
+LIFE_OPS = ["c+", "p", "n", "e", "x0", "xb0", "xe0", "xb1", "s0", "r0"]
 
 
 def rand_script(rng, maxp):
@@ -354,6 +385,11 @@ def gen_peers(ctx):
         for n in range(1, 6 if thorough else 5):
             for t in itertools.product(SYNC_OPS, repeat=n):
                 cand.append(("exhaustive-sync-len%d" % n, m, 300, ",".join(t)))
+    for m in (1, 2):
+        for pre in (["c+"], ["c+", "c+"]):
+            for n in range(1, 5 if thorough else 4):
+                for t in itertools.product(LIFE_OPS, repeat=n):
+                    cand.append(("exhaustive-life-len%d" % (len(pre) + n), m, 300, ",".join(pre + list(t))))
     for _ in range(3000 if not thorough else 30000):
         m = rng.choice([1, 1, 2, 2, 2, 3, 5])
         cand.append(("random", m, 300, rand_script(rng, m)))
@@ -473,8 +509,9 @@ def run(ctx):
         "closeconn: scripted broker (httptest, counts the polls of /client, may hold the first one) and in-process pion answerer in the same driver; smux/kcp-go/RedialPacketConn are exercised, not verified; Close bound 15 s, polls watched for 2 x ReconnectTimeout + 2 s after Close",
     ]
     ctx.assumptions += [
-        "model = coq/Model/Peers.v (interleaving machine, V1 = code with proposed-fixes/C15-*.diff), coq/Model/Connect.v and coq/Model/CloseConn.v (SnowflakeConn.Close over the Peers machine); tie = correspondence on scripted schedules run to quiescence after each op, and on Dial/Close scenarios through the exported API",
+        "model = coq/Model/Peers.v (interleaving machine, V1 = code with proposed-fixes/C15-*.diff) under coq/Model/PeerLife.v (WebRTCPeer.Close as two steps - begin, with the flag Closed() reads set first, and end - and peers quiet for longer than SnowflakeTimeout; the peers scripts run on this composed machine), coq/Model/Connect.v and coq/Model/CloseConn.v (SnowflakeConn.Close over the Peers machine); tie = correspondence on scripted schedules run to quiescence after each op, and on Dial/Close scenarios through the exported API",
         "one collector thread (connectLoop) per Peers; WebRTCPeer.Close and library calls return",
+        "scripted peers have a never-connected pion DataChannel as transport; xb<k> parks a Close call inside cleanup() by holding a read lock of that DataChannel's mutex (reached through reflect/unsafe: pion's DataChannel.Close begins with d.mu.Lock()), xe<k> releases it; s<k>/r<k> set the peer's lastReceive field to SnowflakeTimeout + 1 min ago / now (no staleness checker runs for scripted peers: the script decides when a peer is closed); 'closed' in the driver's answers is the state of the peer's closed channel itself, not what Closed() returns",
         "scripts whose outcome depends on the Go scheduler (flagged by the model adapter) are not compared",
         "failures of CreateDataChannel/CreateOffer/SetLocalDescription are covered by the theorem but cannot be provoked in the unmodified code (only webrtc.Configuration{ICEServers} reaches pion; reasons in the header of coq/Properties/C15.v), so the correspondence does not exercise them",
         "every connect / close / retry scenario has an event listener that does what client/snowflake.go's ptEventLogger does (pt.Log(pt.LogSeverityNotice, e.String()), goptlib's Stdout redirected to io.Discard); a panic in it is caught and reported as term=1 (key client-process-terminated): in the client binary it would end the process",
